@@ -313,7 +313,9 @@ def _check_sort_sites(repo: Repo, L: Ledger, cls, keyf: Func):
                 L.fail("R4", inst, "scaffolds sorted without a key function", m.loc(n))
                 continue
             shape = _key_shape(repo, m, k, keyf)
-            if shape == "natural":
+            if shape == "natural" and is_sort:
+                L.fail("R4", inst, f"'{norm(n)[:60]}' sorts the assembly's own scaffold list in place by name only: a by-name listing taken after the rank-first sort re-orders the output (rank no longer takes precedence), and it fails on assemblies whose scaffolds are a view", m.loc(n))
+            elif shape == "natural":
                 L.ok("R4", inst, "key = natural key", m.loc(n))
             elif shape == "rank+natural":
                 L.ok("R4", inst, "key = (rank, natural key): rank takes precedence", m.loc(n))
